@@ -271,6 +271,7 @@ def run(chk):
     connhdr(chk, repo)
     hunt3_rules(chk, repo)
     hunt4_rules(chk, repo)
+    round6_rules(chk, repo)
     # ---- eof -----------------------------------------------------------------------------------------------------------------------------
     wb = repo.func(REQ, "ClientRequest._write_bytes")
     t = [t for t in ast.walk(wb.node) if isinstance(t, ast.Try) and t.orelse]
@@ -383,6 +384,61 @@ def _codec(c):
     enc = c.args[0].value if c.args and isinstance(c.args[0], ast.Constant) else next((k.value.value for k in c.keywords if k.arg == "encoding" and isinstance(k.value, ast.Constant)), "utf-8")
     err = c.args[1].value if len(c.args) > 1 and isinstance(c.args[1], ast.Constant) else next((k.value.value for k in c.keywords if k.arg == "errors" and isinstance(k.value, ast.Constant)), "strict")
     return (str(enc).lower().replace("_", "-"), err)
+
+
+_STATEFUL = ("getincrementalencoder", "getincrementaldecoder", "compressobj", "decompressobj", "ZLibCompressor", "ZLibDecompressor", "iterencode", "iterdecode")
+
+
+def round6_rules(chk, repo):
+    """Rule written after seeding round 6 (seed C02-6): a payload that can be sent again starts every pass with fresh codec state.
+    A replayable payload (its class restores the start position of the underlying stream: redirects and retries send the same object again)
+    may keep a stateful codec - an incremental encoder, a compression object - in an attribute only if every pass that restores the start
+    position also replaces that object.  An incremental encoder of a codec with a byte-order mark emits the mark once in its lifetime: made in
+    __init__, the second transmission of the payload is two bytes short of the first (and of its declared Content-Length)."""
+    rule = "C02.replay.codec"
+    mod = repo.module("aiohttp/payload.py")
+    n_attrs = 0
+    for ci in mod.classes.values():
+        if not any("_set_or_restore_start_position" in c.methods for c in repo.mro(ci)):
+            continue
+        stores = {}
+        for name, fn in ci.methods.items():
+            for st in ast.walk(fn.node):
+                if isinstance(st, ast.Assign) and len(st.targets) == 1 and isinstance(st.targets[0], ast.Attribute) and norm.raw(st.targets[0].value) == "self":
+                    if any(isinstance(c, ast.Call) and any(k in norm.raw(c.func) for k in _STATEFUL) for c in ast.walk(st.value)):
+                        stores.setdefault(st.targets[0].attr, []).append((fn, st))
+        for attr, sites in stores.items():
+            n_attrs += 1
+            restorers = {name: fn for name, fn in ci.methods.items() if M.contains(fn.node, "self._set_or_restore_start_position()")}
+            def starts_pass(fn, depth=0):
+                if fn.name in restorers:
+                    return True
+                callers = [f for f in ci.methods.values() if f is not fn and any(norm.raw(c.func) == f"self.{fn.name}" for c in prog.calls_in(f.node))]
+                return bool(callers) and depth < 2 and all(starts_pass(f, depth + 1) for f in callers)
+            bad = [(fn, st) for fn, st in sites if not starts_pass(fn)]
+            for fn, st in bad:
+                chk.violation(rule, st, K.short(st), f"self.{attr} = <new codec object> in the method that restores the start position ({', '.join(sorted(restorers)) or 'none'})",
+                              f"{ci.name} can be transmitted again (redirect, retry: the start position of the stream is restored) but the stateful codec in self.{attr} is made once in {fn.name}(): an incremental encoder writes its byte-order mark (utf-16, utf-32, utf-8-sig) only on the first call of its lifetime, so the second transmission of the same payload is shorter than the first and than the declared Content-Length")
+            # in every restorer that uses the codec, the replacement lies on every path between the restore and the use
+            for name, fn in restorers.items():
+                g = cfg_of(fn.node)
+                uses = [n for n in g.nodes if n.in_finally_copy is None and isinstance(getattr(n, "ast", None), ast.AST) and n.kind in ("stmt", "test") and any(norm.raw(c.func).startswith(f"self.{attr}.") for c in K.node_calls(n))]
+                if not uses:
+                    continue
+                rest = K.nodes_matching(fn, "self._set_or_restore_start_position()")
+                def fresh(n):
+                    if n.kind != "stmt" or not isinstance(n.ast, ast.Assign):
+                        return False
+                    if any(st is n.ast for _f, st in sites):
+                        return True
+                    return any(norm.raw(c.func) == f"self.{h.name}" for c in K.node_calls(n) for h, _st in sites if h is not fn)
+                pth = g.find_path(rest, lambda n: n in uses, fresh, EXPLICIT)
+                if pth is None:
+                    chk.ok(rule, uses[0].ast, f"{ci.name}.{name}(): self.{attr} is replaced on every path from the restored start position to its use")
+                else:
+                    chk.violation(rule, uses[0].ast, K.short(uses[0].ast), f"self.{attr} = <new codec object> between _set_or_restore_start_position() and the use",
+                                  f"{ci.name}.{name}() starts a new pass over the stream but can reach self.{attr} without replacing it: codec state (a byte-order mark already written, buffered surrogate halves) of the previous transmission leaks into this one", path=g.fmt_path(pth))
+    chk.expect_count(rule, n_attrs, 1, "stateful codec attributes of replayable payload classes")
 
 
 def hunt4_rules(chk, repo):
